@@ -19,8 +19,9 @@ def sh(cmd, **kw):
 
 def main():
     cand, name = sys.argv[1], sys.argv[2]
-    wt = "/var/tmp/confirm-wt"
-    bd = "/var/tmp/confirm-build"      # reused incrementally across confirmations
+    lane = os.environ.get("CONFIRM_LANE", "")
+    wt = "/var/tmp/confirm-wt" + lane
+    bd = "/var/tmp/confirm-build" + lane      # reused incrementally across confirmations
     sh(["git", "-C", "/repo", "worktree", "add", "--detach", wt, "HEAD"])
     res = {}
     try:
